@@ -27,12 +27,24 @@
 (*            Kzz^-1) = Nystrom; SGPRPredictionStrategy (Woodbury          *)
 (*            covar_cache) = conditional of the Nystrom (+ diagonal        *)
 (*            correction) matrix = Titsias' predictive equations; pieces   *)
-(*            of the collapsed bound                                       *)
+(*            of the collapsed bound.  The observation noise is the        *)
+(*            diagonal matrix of a Gaussian-family noise model (field nk): *)
+(*            "homo" (one variance), "fixed" (a known variance per         *)
+(*            training point), "fixedadd" (known per-point + one learned   *)
+(*            variance), "hetero" (a function of the input); the           *)
+(*            collapsed bound is stated as the ELBO at the optimal q(u)    *)
 (*   "rff"    RFFPredictionStrategy (feature-space cache) = conditional    *)
 (*            for Phi Phi^T = weight-space posterior                       *)
 (*   "wiski"  InterpolatedPredictionStrategy fantasy caches (W' D^-1 W,    *)
 (*            W' D^-1 y) and their low-rank update = conditional on        *)
 (*            train + fantasy data for W K_uu W'                           *)
+(*                                                                         *)
+(*  a state machine (histories, not single calls):                         *)
+(*   "gridsm" the eval-mode cache of K_UU in GridKernel /                  *)
+(*            GridInterpolationKernel under evaluate / update_grid /       *)
+(*            load_state_dict / growth of a data-dependent grid /          *)
+(*            train-eval switches: every evaluation answers from the       *)
+(*            CURRENT grid                                                 *)
 (***************************************************************************)
 EXTENDS LinAlg, TLC
 
@@ -40,7 +52,10 @@ CONSTANTS Part, Instances,
           MaxN, MaxT, MaxQ,      \* "kron", "index": points, tasks, LCM terms
           GridSizes,             \* "grid", "ski": set of size sequences (one entry per dimension)
           Order,                 \* "ski": how interpolate() flattens a multi-index: "lex" (last dimension fastest) | "colmajor"
-          SkiKron                \* "ski": Kronecker order of K_uu in interpolation mode: "reversed" | "forward"
+          SkiKron,               \* "ski": Kronecker order of K_uu in interpolation mode: "reversed" | "forward"
+          GsmKind, GsmDepth,     \* "gridsm": "fixed" | "dyn" | "plain" kernel, length of the histories
+          GsmWide,               \* "gridsm": BOOLEAN, the wide alphabet (every pair of data ranges; both kinds of evaluation at every step)
+          GsmClear               \* "gridsm": what update_grid invalidates: "always" (the code) | "noninterp" (a model of a stale-cache variant)
 
 VARIABLES c, out
 vars == <<c, out>>
@@ -172,103 +187,183 @@ SKIReversalOK ==
 SKICases == [sizes : GridSizes]
 
 \* ============================== "sgpr" ===========================================================
-\* instance: L (m x m integer lower triangular, positive diagonal), X (n x (m+1)), Xs (ns x (m+1)) integer, y, s2, mc, corr;
+\* instance: L (m x m integer lower triangular, positive diagonal), X (n x (m+1)), Xs (ns x (m+1)) integer, y, mc, corr, and the
+\* noise model nk with s2 (integer variance), nv (integer variance per training point);
 \* linear kernel k(a, b) = a . b, inducing points Z = [L | 0]: Kzz = L L^T.
-\* (Every intermediate matrix is bound ONCE in a LET: TLC re-evaluates operator arguments at every use.)
+\* (Every intermediate matrix is bound ONCE in a LET, as an explicit tuple (StrictM / StrictV): TLC re-evaluates operator arguments and the
+\* bodies of function constructors at every use.  The ...L operators cancel common factors before multiplying: TLC integers are 32 bit.)
 Gm(A, B) == MMul(A, Tr(B))
 RMax0(a) == IF RLt(a, RZero) THEN RZero ELSE a
 RECURSIVE RPow(_, _)
 RPow(a, k) == IF k = 0 THEN ROne ELSE RMul(a, RPow(a, k - 1))
+RECURSIVE RProdS(_)
+RProdS(q) == IF q = <<>> THEN ROne ELSE RMul(Head(q), RProdS(Tail(q)))
+\* rational sums / products that cancel common factors BEFORE multiplying (TLC integers are 32 bit; Rational.tla multiplies the denominators first)
+RAddL(a, b) == LET g == Gcd(a[2], b[2]) IN Norm(a[1] * (b[2] \div g) + b[1] * (a[2] \div g), (a[2] \div g) * b[2])
+RMulL(a, b) == LET g1 == Gcd(Abs(a[1]), b[2]) g2 == Gcd(Abs(b[1]), a[2])
+                   h1 == IF g1 = 0 THEN 1 ELSE g1 h2 == IF g2 = 0 THEN 1 ELSE g2
+               IN Norm((a[1] \div h1) * (b[1] \div h2), (a[2] \div h2) * (b[2] \div h1))
+RECURSIVE RSumL(_)
+RSumL(q) == IF q = <<>> THEN RZero ELSE RAddL(Head(q), RSumL(Tail(q)))
+DotL(u, v) == RSumL([k \in 1..Len(u) |-> RMulL(u[k], v[k])])
+MTrace(M) == RSumL([p \in 1..Len(M) |-> M[p][p]])
+RSubL(a, b) == RAddL(a, RNeg(b))
+MMulL(A, B) == Mk(Rows(A), Cols(B), LAMBDA i, j : RSumL([k \in 1..Cols(A) |-> RMulL(A[i][k], B[k][j])]))
+MVecL(A, v) == [i \in 1..Rows(A) |-> RSumL([k \in 1..Cols(A) |-> RMulL(A[i][k], v[k])])]
+MAddL(A, B) == Mk(Rows(A), Cols(A), LAMBDA i, j : RAddL(A[i][j], B[i][j]))
+MSubL(A, B) == Mk(Rows(A), Cols(A), LAMBDA i, j : RSubL(A[i][j], B[i][j]))
+VAddL(u, v) == [i \in 1..Len(u) |-> RAddL(u[i], v[i])]
+VSubL(u, v) == [i \in 1..Len(u) |-> RSubL(u[i], v[i])]
+GmL(A, B) == MMulL(A, Tr(B))
+RECURSIVE DetL(_)
+DetL(M) ==
+  IF Rows(M) = 0 THEN ROne
+  ELSE IF Rows(M) = 1 THEN M[1][1]
+  ELSE RSumL([j \in 1..Rows(M) |-> LET t == RMulL(M[1][j], DetL(Minor(M, 1, j))) IN IF j % 2 = 1 THEN t ELSE RNeg(t)])
+IsPSDL(M) == \A S \in SUBSET (1..Rows(M)) :
+               S = {} \/ LET q == CHOOSE q \in [1..Cardinality(S) -> S] : \A a, b \in 1..Cardinality(S) : a < b => q[a] < q[b]
+                         IN RLe(RZero, DetL(Sel(M, q, q)))
+InvL(M) ==
+  LET n == Rows(M) d == RDiv(ROne, DetL(M))
+  IN Mk(n, n, LAMBDA i, j : LET cf == DetL(Minor(M, j, i)) IN RMulL(IF (i + j) % 2 = 0 THEN cf ELSE RNeg(cf), d))
+CondMeanL(ms, Ksx, A, y, mx) == VAddL(ms, MVecL(Ksx, MVecL(InvL(A), VSubL(y, mx))))
+CondCovL(Kss, Ksx, A)        == MSubL(Kss, MMulL(Ksx, MMulL(InvL(A), Tr(Ksx))))
+\* TLC evaluates a function constructor to a closure whose body is re-evaluated at EVERY application (a chain of matrix products costs
+\* inner-dimension ^ depth per element): every intermediate vector / matrix is rebuilt with Append into an explicit tuple, once
+RECURSIVE StrictTo(_, _)
+StrictTo(f, k) == IF k = 0 THEN <<>> ELSE Append(StrictTo(f, k - 1), f[k])
+StrictV(v) == StrictTo(v, Len(v))
+StrictM(M) == StrictTo([p \in 1..Len(M) |-> StrictV(M[p])], Len(M))
+
+\* the Gaussian-family noise models: the observation noise covariance is diag(NoiseVec)
+NoiseKinds == {"homo", "fixed", "fixedadd", "hetero"}
+NoiseVec(i) == [p \in 1..Len(i.X) |-> CASE i.nk = "homo"     -> R(i.s2)                 \* GaussianLikelihood
+                                        [] i.nk = "fixedadd" -> R(i.nv[p] + i.s2)       \* FixedNoiseGaussianLikelihood(learn_additional_noise)
+                                        [] OTHER             -> R(i.nv[p])]             \* FixedNoiseGaussianLikelihood; HeteroskedasticNoise
 
 SgprAll(i) ==
   LET m == Len(i.L) n == Len(i.X) ns == Len(i.Xs)
-      Lq == FromInt(i.L)
-      Z == [p \in 1..m |-> Lq[p] \o <<RZero>>]
-      Xq == FromInt(i.X) Xsq == FromInt(i.Xs)
-      kzz == Gm(Z, Z) kxz == Gm(Xq, Z) ksz == Gm(Xsq, Z) kxx == Gm(Xq, Xq) kss == Gm(Xsq, Xsq)
-      kzx == Tr(kxz) kzs == Tr(ksz)
-      s2 == R(i.s2) is2 == RDiv(ROne, R(i.s2))
-      mx == [p \in 1..n |-> R(i.mc)] ms == [p \in 1..ns |-> R(i.mc)]
-      resid == VSub(VFromInt(i.y), mx)
+      Lq == StrictM(FromInt(i.L))
+      Z == StrictM([p \in 1..m |-> Lq[p] \o <<RZero>>])
+      Xq == StrictM(FromInt(i.X))
+      Xsq == StrictM(FromInt(i.Xs))
+      kzz == StrictM(GmL(Z, Z))
+      kxz == StrictM(GmL(Xq, Z))
+      ksz == StrictM(GmL(Xsq, Z))
+      kxx == StrictM(GmL(Xq, Xq))
+      kss == StrictM(GmL(Xsq, Xsq))
+      kzx == StrictM(Tr(kxz))
+      kzs == StrictM(Tr(ksz))
+      nz == StrictV(NoiseVec(i))
+      invn == StrictM(Diag([p \in 1..n |-> RDiv(ROne, nz[p])]))
+      mx == StrictV([p \in 1..n |-> R(i.mc)])
+      ms == StrictV([p \in 1..ns |-> R(i.mc)])
+      resid == StrictV(VSubL(VFromInt(i.y), mx))
       \* ---- code: chol = psd_safe_cholesky(Kzz, upper = True) = L^T; inv_root = chol^-1
-      U == Tr(Lq)
-      ir == Inv(U)
-      irirT == Gm(ir, ir)
-      rx == MMul(kxz, ir)                           \* k_ux1 @ inv_root (training inputs)
-      rs == MMul(ksz, ir)                           \* (test inputs)
-      rxT == Tr(rx) rsT == Tr(rs)
-      qxx == MMul(rx, rxT)                          \* LowRankRootLinearOperator(root)
-      qsx == MMul(rs, rxT)                          \* MatmulLinearOperator(k_ux1 inv_root, (k_ux2 inv_root)^T)
-      gap == [p \in 1..n |-> RSub(kxx[p][p], qxx[p][p])]
-      dg == [p \in 1..n |-> IF i.corr THEN RAdd(s2, RMax0(gap[p])) ELSE s2]      \* noise (+ diagonal correction)
-      A == MAdd(qxx, Diag(dg))
-      Ai == Inv(A)
+      U == StrictM(Tr(Lq))
+      ir == StrictM(InvL(U))
+      irirT == StrictM(GmL(ir, ir))
+      rx == StrictM(MMulL(kxz, ir))                           \* k_ux1 @ inv_root (training inputs)
+      rs == StrictM(MMulL(ksz, ir))                           \* (test inputs)
+      rxT == StrictM(Tr(rx))
+      rsT == StrictM(Tr(rs))
+      qxx == StrictM(MMulL(rx, rxT))                          \* LowRankRootLinearOperator(root)
+      qsx == StrictM(MMulL(rs, rxT))                          \* MatmulLinearOperator(k_ux1 inv_root, (k_ux2 inv_root)^T)
+      gap == StrictV([p \in 1..n |-> RSub(kxx[p][p], qxx[p][p])])
+      dg == StrictV([p \in 1..n |-> IF i.corr THEN RAdd(nz[p], RMax0(gap[p])) ELSE nz[p]])      \* noise (+ diagonal correction)
+      A == StrictM(MAddL(qxx, Diag(dg)))
+      Ai == StrictM(InvL(A))
       \* ---- code: Woodbury covar_cache = R^T (D^-1 - D^-1 R (I + R^T D^-1 R)^-1 R^T D^-1) R
-      invd == Diag([p \in 1..n |-> RDiv(ROne, dg[p])])
-      t1 == MMul(invd, rx)
-      t1T == Tr(t1)
-      t2 == MMul(rxT, t1)
-      cap == MAdd(Ident(m), t2)
-      capi == Inv(cap)
-      t3 == MMul(t1, capi)
-      t4 == MMul(t3, t1T)
-      wood == MSub(invd, t4)
-      t5 == MMul(wood, rx)
-      cache == MMul(rxT, t5)
+      invd == StrictM(Diag([p \in 1..n |-> RDiv(ROne, dg[p])]))
+      t1 == StrictM(MMulL(invd, rx))
+      t1T == StrictM(Tr(t1))
+      t2 == StrictM(MMulL(rxT, t1))
+      cap == StrictM(MAddL(Ident(m), t2))
+      capi == StrictM(InvL(cap))
+      t3 == StrictM(MMulL(t1, capi))
+      t4 == StrictM(MMulL(t3, t1T))
+      wood == StrictM(MSubL(invd, t4))
+      t5 == StrictM(MMulL(wood, rx))
+      cache == StrictM(MMulL(rxT, t5))
       \* ---- code: mean = Q*x (A^-1 (y - m)) + m*; covariance = K** (BASE kernel) - L covar_cache L^T, L = k_u* inv_root
-      alpha == MVec(Ai, resid)
-      qa == MVec(qsx, alpha)
-      mean == VAdd(qa, ms)
-      t6 == MMul(cache, rsT)
-      t7 == MMul(rs, t6)
-      cov == MSub(kss, t7)
-      \* ---- Nystrom and Titsias (2009): Sigma = (Kzz + s2^-1 Kzx Kxz)^-1
-      kzzi == Inv(kzz)
-      n1 == MMul(kzzi, kzx)
-      nys == MMul(kxz, n1)
-      nsx == MMul(ksz, n1)
-      g1 == MMul(kzx, kxz)
-      g2 == MScale(is2, g1)
-      sig0 == MAdd(kzz, g2)
-      sig == Inv(sig0)
-      tm1 == MMul(sig, kzx)
-      tm2 == MMul(ksz, tm1)
-      tm3 == MScale(is2, tm2)
-      tm4 == MVec(tm3, resid)
-      tmean == VAdd(ms, tm4)
-      tc1 == MMul(kzzi, kzs)
-      tc2 == MMul(ksz, tc1)
-      tc3 == MMul(sig, kzs)
-      tc4 == MMul(ksz, tc3)
-      tc5 == MSub(kss, tc2)
-      tcov == MAdd(tc5, tc4)
-      \* ---- collapsed bound, training mode (no correction): log N(y; m, Qxx + s2 I) - tr(Kxx - Qxx) / (2 s2)
-      s2I == MScale(s2, Ident(n))
-      ab == MAdd(qxx, s2I)
-      abi == Inv(ab)
-      abr == MVec(abi, resid)
-      t8 == MMul(rxT, rx)
-      t9 == MScale(is2, t8)
-      t10 == MAdd(Ident(m), t9)
+      alpha == StrictV(MVecL(Ai, resid))
+      qa == StrictV(MVecL(qsx, alpha))
+      mean == StrictV(VAddL(qa, ms))
+      t6 == StrictM(MMulL(cache, rsT))
+      t7 == StrictM(MMulL(rs, t6))
+      cov == StrictM(MSubL(kss, t7))
+      \* ---- Nystrom and Titsias (2009) with noise covariance N = diag(nz): Sigma = (Kzz + Kzx N^-1 Kxz)^-1
+      kzzi == StrictM(InvL(kzz))
+      n1 == StrictM(MMulL(kzzi, kzx))
+      nys == StrictM(MMulL(kxz, n1))
+      nsx == StrictM(MMulL(ksz, n1))
+      g1 == StrictM(MMulL(invn, kxz))
+      g2 == StrictM(MMulL(kzx, g1))
+      sig0 == StrictM(MAddL(kzz, g2))
+      sig == StrictM(InvL(sig0))
+      tm1 == StrictM(MMulL(sig, kzx))
+      tm2 == StrictM(MMulL(tm1, invn))                        \* Sigma Kzx N^-1
+      tm3 == StrictM(MMulL(ksz, tm2))
+      tm4 == StrictV(MVecL(tm3, resid))
+      tmean == StrictV(VAddL(ms, tm4))
+      tc1 == StrictM(MMulL(kzzi, kzs))
+      tc2 == StrictM(MMulL(ksz, tc1))
+      tc3 == StrictM(MMulL(sig, kzs))
+      tc4 == StrictM(MMulL(ksz, tc3))
+      tc5 == StrictM(MSubL(kss, tc2))
+      tcov == StrictM(MAddL(tc5, tc4))
+      \* ---- collapsed bound, training mode (no correction): log N(y; m, Qxx + N) - tr(N^-1 (Kxx - Qxx)) / 2
+      ab == StrictM(MAddL(qxx, Diag(nz)))
+      abi == StrictM(InvL(ab))
+      abr == StrictV(MVecL(abi, resid))
+      t8 == StrictM(MMulL(invn, rx))
+      t9 == StrictM(MMulL(rxT, t8))
+      t10 == StrictM(MAddL(Ident(m), t9))
+      quad == DotL(resid, abr)
+      tr == RSumL([p \in 1..n |-> RDiv(gap[p], nz[p])])         \* code: (diag / noise_diag).sum()
   IN [kzz |-> kzz, kzzi |-> kzzi, irirT |-> irirT, qxx |-> qxx, qsx |-> qsx, nys |-> nys, nsx |-> nsx, gap |-> gap, A |-> A, Ai |-> Ai, wood |-> wood,
-      kss |-> kss, ms |-> ms, mx |-> mx, mean |-> mean, cov |-> cov, tmean |-> tmean, tcov |-> tcov,
-      quad |-> Dot(resid, abr), det |-> Det(ab), detlemma |-> RMul(RPow(s2, n), Det(t10)), tr |-> RSum(gap)]
+      kss |-> kss, ms |-> ms, mx |-> mx, mean |-> mean, cov |-> cov, tmean |-> tmean, tcov |-> tcov, nz |-> nz,
+      quad |-> quad, det |-> DetL(ab), detlemma |-> RMulL(RProdS(nz), DetL(t10)), tr |-> tr,
+      kxx |-> kxx, kxz |-> kxz, sig |-> sig, sig0 |-> sig0, tm1 |-> tm1, tm2 |-> tm2, resid |-> resid]
+
+\* The meaning of the collapsed bound: the evidence lower bound E_q[log p(y | f)] - KL(q(u) || p(u)) at the optimal q(u) = N(mu, S),
+\* S = Kzz Sigma Kzz, mu = Kzz Sigma Kzx N^-1 (y - m); q(f_p) has mean a_p and variance vq_pp + gapD_p with gapD the variance of f_p given u
+\* (the dense Gaussian conditional).  -2 ELBO = elbo2 + log terms; -2 bound = quad + tr + log terms, and the log terms agree iff
+\* det(Qxx + N) = det(N) det(Kzz) / det(S) = det(N) / (det(Kzz) det(Sigma)).
+\* (Separate from SgprAll, whose record is also built for the expected observation `out` in the initial predicate.)
+SgprElbo(a) ==
+  LET n == Len(a.nz) m == Len(a.kzz)
+      gapD == StrictV([p \in 1..n |-> RSub(a.kxx[p][p], a.nys[p][p])])    \* K_pp - K_pz Kzz^-1 K_zp
+      muw == StrictV(MVecL(a.tm2, a.resid))                   \* Kzz^-1 mu
+      av == StrictV(MVecL(a.kxz, muw))
+      kmu == StrictV(MVecL(a.kzz, muw))
+      vq == StrictM(MMulL(a.kxz, a.tm1))                      \* Kxz Kzz^-1 S Kzz^-1 Kzx
+      skz == StrictM(MMulL(a.sig, a.kzz))                     \* Kzz^-1 S
+      dev == StrictV([p \in 1..n |-> RSub(a.resid[p], av[p])])
+      fit == RSumL([p \in 1..n |-> RMulL(RAddL(RAddL(RMulL(dev[p], dev[p]), vq[p][p]), gapD[p]), RDiv(ROne, a.nz[p]))])
+  IN [gapD |-> gapD, elbo2 |-> RAddL(RAddL(RAddL(fit, MTrace(skz)), DotL(muw, kmu)), R(0 - m)), detelbo |-> RMulL(a.det, RMulL(DetL(a.kzz), RDiv(ROne, DetL(a.sig0))))]
 
 SgprOK ==
   Part = "sgpr" =>
     LET a == SgprAll(c)
-    IN /\ IsPD(a.kzz)
+        e == SgprElbo(a)
+    IN /\ c.nk \in NoiseKinds
+       /\ \A p \in 1..Len(c.X) : RLt(RZero, a.nz[p])
+       /\ IsPD(a.kzz)
        /\ a.irirT = a.kzzi                                                \* inv_root inv_root^T = Kzz^-1
        /\ a.qxx = a.nys /\ a.qsx = a.nsx                                  \* Nystrom: Kxz Kzz^-1 Kzx
        /\ \A p \in 1..Len(c.X) : RLe(RZero, a.gap[p])                     \* Kxx - Qxx has a non-negative diagonal (clamp inactive)
+       /\ a.gap = e.gapD                                                  \*   = the variance of f_p given u
        /\ a.wood = a.Ai                                                   \* Woodbury
-       /\ a.mean = CondMean(a.ms, a.qsx, a.A, VFromInt(c.y), a.mx)        \* = the dense conditional of the joint prior
-       /\ a.cov = CondCov(a.kss, a.qsx, a.A)                              \*   [[A, Qx*], [Q*x, K**]]
-       /\ IsPSD(a.cov)
+       /\ a.mean = CondMeanL(a.ms, a.qsx, a.A, VFromInt(c.y), a.mx)        \* = the dense conditional of the joint prior
+       /\ a.cov = CondCovL(a.kss, a.qsx, a.A)                              \*   [[A, Qx*], [Q*x, K**]]
+       /\ IsPSDL(a.cov)
        /\ (~c.corr => a.mean = a.tmean /\ a.cov = a.tcov)                 \* = Titsias' predictive equations
        /\ a.det = a.detlemma                                              \* determinant lemma (LowRankRootAddedDiag log det)
        /\ RLe(RZero, a.tr)
-SgprOut(i) == LET a == SgprAll(i) IN [mean |-> a.mean, cov |-> a.cov, quad |-> a.quad, det |-> a.det, tr |-> a.tr]
+       /\ RAddL(a.quad, a.tr) = e.elbo2                                    \* the collapsed bound IS the ELBO at the optimal q(u): rational part
+       /\ e.detelbo = RProdS(a.nz)                                        \*   and log part: det(Qxx + N) = det(N) det(Kzz) / det(S)
+SgprOut(i) == LET a == SgprAll(i) IN [mean |-> a.mean, cov |-> a.cov, quad |-> a.quad, det |-> a.det, tr |-> a.tr, nz |-> a.nz]
 
 \* ============================== "rff" ============================================================
 \* instance: F (n x f), Fs (ns x f) integer feature matrices (z / sqrt(D) scaled to integers), y, s2, mc
@@ -368,18 +463,85 @@ WiskiOK ==
        /\ p1.mean = after.mean /\ p1.cov = after.cov
        /\ C1 = Call /\ r1 = [p \in 1..Len(wally) |-> RMul(is2, wally[p])]
 
+\* ============================== "gridsm" =========================================================
+\* The eval-mode cache of K_UU (GridKernel._cached_kernel_mat) along histories.  A kernel of kind
+\*   "fixed"  GridInterpolationKernel with grid_bounds: the grid changes through update_grid(g) / load_state_dict (grid g, g = 0 the constructor's)
+\*   "dyn"    GridInterpolationKernel without grid_bounds: the grid is laid over the data of the first call and re-laid over the data of
+\*            any later call that is not covered by it (forward calls update_grid itself)
+\*   "plain"  GridKernel (not interpolating): update_grid / load_state_dict also refresh full_grid
+\* A grid is a tuple (<<g>>, or <<lo, hi>> = the data range it was fitted to); <<>> = no cached matrix.  Data ranges in half units.
+\* Code: Module.train(mode) clears the cache on every switch; _load_from_state_dict clears it; update_grid clears it (GsmClear = "always");
+\* forward in eval mode answers from the cache when it is filled and fills it otherwise; in training mode it never caches.
+\* Property: every evaluation answers with K_UU of the grid the kernel has NOW (used = grid), i.e. the result is W K_UU(current grid) W^T.
+GsmNone == <<>>
+GsmRange(r) == CASE r = "A" -> <<0, 2>> [] r = "B" -> <<-2, 4>> [] OTHER -> <<6, 10>>
+GsmHull(a, b) == <<IF a[1] < b[1] THEN a[1] ELSE b[1], IF a[2] > b[2] THEN a[2] ELSE b[2]>>
+GsmCovers(g, h) == g[1] <= h[1] /\ h[2] <= g[2]
+GsmPairs == IF GsmWide THEN {<<"A", "A">>, <<"B", "B">>, <<"C", "C">>, <<"A", "B">>, <<"C", "A">>}         \* (x1 from, x2 from); equal = the same tensor
+            ELSE {<<"A", "A">>, <<"A", "B">>, <<"C", "C">>}
+\* "fixed": flag = (x1 is x2); "plain": flag = on the full grid (off it the base kernel answers, no cache involved)
+GsmFlags == IF GsmWide THEN BOOLEAN ELSE {IF c.kind = "plain" THEN TRUE ELSE Len(out) % 2 = 0}
+GsmGridIds == 1..2
+GsmClears == GsmClear = "always" \/ c.kind = "plain"
+GsmFill(mode, cache, grid) == IF mode = "eval" THEN (IF cache = GsmNone THEN grid ELSE cache) ELSE GsmNone
+GsmUsed(mode, cache, grid) == IF mode = "eval" /\ cache # GsmNone THEN cache ELSE grid
+GsmLog(e) == out' = Append(out, e)
+
+GsmEvalDyn(pr) ==
+  LET h == GsmHull(GsmRange(pr[1]), GsmRange(pr[2]))
+      refit == ~c.init \/ ~GsmCovers(c.grid, h)
+      grid1 == IF refit THEN h ELSE c.grid
+      cache1 == IF refit /\ GsmClears THEN GsmNone ELSE c.cache
+  IN /\ c.kind = "dyn"
+     /\ c' = [c EXCEPT !.grid = grid1, !.init = TRUE, !.cache = GsmFill(c.mode, cache1, grid1)]
+     /\ GsmLog([a |-> "eval", x |-> pr, refit |-> refit, grid |-> grid1, used |-> GsmUsed(c.mode, cache1, grid1), mode |-> c.mode])
+\* "fixed": x = <<same>> (x1 is x2 or not); "plain": x = <<on>> (on the full grid: the structured path; off it: the base kernel, no cache)
+GsmEvalStatic(flag) ==
+  LET structured == c.kind = "fixed" \/ flag
+  IN /\ c.kind # "dyn"
+     /\ c' = [c EXCEPT !.cache = IF structured THEN GsmFill(c.mode, c.cache, c.grid) ELSE c.cache]
+     /\ GsmLog([a |-> "eval", x |-> <<flag>>, refit |-> FALSE, grid |-> c.grid, used |-> IF structured THEN GsmUsed(c.mode, c.cache, c.grid) ELSE c.grid, mode |-> c.mode])
+GsmUpdate(g) ==
+  /\ c.kind # "dyn"
+  /\ c' = [c EXCEPT !.grid = <<g>>, !.cache = IF GsmClears THEN GsmNone ELSE c.cache]
+  /\ GsmLog([a |-> "update", g |-> g])
+GsmLoad(g) ==
+  /\ c.kind # "dyn"
+  /\ c' = [c EXCEPT !.grid = <<g>>, !.cache = GsmNone]
+  /\ GsmLog([a |-> "load", g |-> g])
+GsmSwitch ==
+  /\ c' = [c EXCEPT !.mode = IF c.mode = "eval" THEN "train" ELSE "eval", !.cache = GsmNone]
+  /\ GsmLog([a |-> "switch", mode |-> IF c.mode = "eval" THEN "train" ELSE "eval"])
+GsmNext ==
+  \/ /\ Len(out) < GsmDepth
+     /\ \/ \E pr \in GsmPairs : GsmEvalDyn(pr)
+        \/ \E flag \in GsmFlags : GsmEvalStatic(flag)
+        \/ \E g \in GsmGridIds : GsmUpdate(g)
+        \/ GsmLoad(1)
+        \/ GsmSwitch
+  \/ Len(out) >= GsmDepth /\ UNCHANGED vars
+GsmInit == [kind : {GsmKind}, mode : {"train", "eval"}, grid : {IF GsmKind = "dyn" THEN <<-2, 2>> ELSE <<0>>}, init : {GsmKind # "dyn"}, cache : {GsmNone}]
+GsmOK ==
+  Part = "gridsm" =>
+    /\ \A k \in 1..Len(out) : out[k].a = "eval" => out[k].used = out[k].grid
+    /\ (c.cache # GsmNone => c.cache = c.grid)
+    /\ (c.mode = "train" => c.cache = GsmNone)
+    /\ (c.kind = "dyn" /\ c.init => \A k \in 1..Len(out) : (out[k].a = "eval" /\ \A j \in (k + 1)..Len(out) : out[j].a # "eval") =>
+                                      GsmCovers(c.grid, GsmHull(GsmRange(out[k].x[1]), GsmRange(out[k].x[2]))))     \* the grid covers the last data
+
 \* ============================== machine ==========================================================
 Init ==
   /\ CASE Part = "kron"  -> c \in KronCases
        [] Part = "index" -> c \in IndexCases
        [] Part = "grid"  -> c \in GridCases
        [] Part = "ski"   -> c \in SKICases
+       [] Part = "gridsm" -> c \in GsmInit
        [] OTHER          -> c \in Instances
   /\ out = CASE Part = "kron"  -> LCMDense(c.Q, c.n, c.m, c.t, c.r)
              [] Part = "index" -> [index |-> IndexDense(c), hadamard |-> HadamardDense(c)]
              [] Part = "grid"  -> GridDense(c.sizes, c.toep)
              [] Part = "sgpr"  -> SgprOut(c)
              [] OTHER          -> <<>>
-Next == UNCHANGED vars
+Next == IF Part = "gridsm" THEN GsmNext ELSE UNCHANGED vars
 Spec == Init /\ [][Next]_vars
 =============================================================================
